@@ -1,30 +1,20 @@
-use rsdd::builder::sdd::{SddBuilder, SemanticSddBuilder};
-use rsdd::constants::primes;
-use rsdd::repr::{create_semantic_hash_map, DDNNFPtr, SddPtr};
-use vp::fnsrc::FnSrc;
-use vp::semi::sdd_from_tt;
-use vp::vtgen::VtreeCase;
-use vp::walk::*;
-
+use rsdd::serialize::LogicalSExpr;
+fn try_parse(s: &str) {
+    let r = std::panic::catch_unwind(|| serde_sexpr::from_str::<LogicalSExpr>(s).map(|_| ()));
+    println!("{:50} {:?}", s.replace('\n', "\\n").replace('\t', "\\t"), r.map_err(|_| "PANIC"));
+}
 fn main() {
-    const P: u128 = primes::U32_TINY;
-    let src = FnSrc::Bits { n: 6, bits: 5897317937455563363, keep: 255 };
-    let vt = VtreeCase { k: 6, keys: vec![0, 54155, 54155, 0, 0, 0, 0, 0, 0, 0, 0, 0], kind: 1, splits: vec![0; 12], stride: 1, offset: 0 };
-    let t = src.tt();
-    let map = create_semantic_hash_map::<P>(6);
-    let b = SemanticSddBuilder::<P>::new(vt.to_vtree());
-    let f = sdd_from_tt(&b, t, 6);
-    println!("tt ok: {}", sdd_tt(f) == t);
-    println!("fold hash {:?} cached {:?}", f.semantic_hash(&map), b.cached_semantic_hash(f));
-    for n in sdd_nodes(f) {
-        let fh = n.semantic_hash(&map);
-        let ch = n.cached_semantic_hash(b.vtree_manager(), &map);
-        if fh != ch {
-            println!("node at vtree {} differs: fold {:?} cached {:?}; elements:", n.vtree().value(), fh, ch);
-            for (p, s) in sdd_elements(n) {
-                println!("   prime fold {:?} cached {:?} | sub fold {:?} cached {:?}  prime tt {:?} sub tt {:?}", p.semantic_hash(&map), p.cached_semantic_hash(b.vtree_manager(), &map), s.semantic_hash(&map), s.cached_semantic_hash(b.vtree_manager(), &map), sdd_tt(p), sdd_tt(s));
-            }
-        }
-    }
-    let _ = SddPtr::PtrTrue;
+    std::panic::set_hook(Box::new(|_| {}));
+    try_parse("(And (Var X) (Var Y))\n");
+    try_parse("\n(And (Var X) (Var Y))");
+    try_parse("\t(And (Var X) (Var Y))  ");
+    try_parse("(And\n(Var X)\n(Var Y))");
+    try_parse("(And \n (Var X) \t (Var Y))");
+    try_parse("(Not (Not (Var X)))");
+    try_parse("(And (Var B) (Var a))");
+    try_parse("(And (Var 10) (Var 9))");
+    try_parse("(Var x)");
+    try_parse("(Var  x)");
+    try_parse("(Var\nx)");
+    try_parse("(Var x )");
 }
